@@ -54,6 +54,8 @@ def dec(e: Any, ctx: Optional[dict] = None) -> Any:
         return datetime.date.fromisoformat(e[1])
     if k == 'm':
         return donor(e[1], e[2] if len(e) > 2 else 0, ctx or {})
+    if k == 'eq':         # a distinct but EQUAL node: a deep copy of the current value of the slot / element
+        return (ctx or {})['equal'](e)
     if k == 'a':          # an ATTACHED node (lives in some document): resolved by the caller's context
         return (ctx or {})['attached'](e)
     raise TypeError(e)
@@ -270,6 +272,26 @@ def token_values(t: M.RawTokenModel) -> list[Any]:
     return [v for v in vs if v != t.value][:2]
 
 
+class _Unreadable:
+    """stands for a current value whose getter raises (e.g. the value of `1/0`)"""
+
+    def __eq__(self, other: object) -> bool:
+        return False
+
+    def __ne__(self, other: object) -> bool:
+        return True
+
+
+_UNREADABLE = _Unreadable()
+
+
+def cur_value(m: Any, attr: str) -> Any:
+    try:
+        return getattr(m, attr)
+    except Exception:  # noqa: reading may legitimately raise (division by zero in a number expression)
+        return _UNREADABLE
+
+
 def seq_index_args(n: int, level: str) -> dict[str, list]:
     """index / slice arguments for a sequence of length n"""
     if level == 'basic':
@@ -309,6 +331,9 @@ def _seq_ops(path: list, attr: str, w: Any, names: list[str], valdom: Optional[l
         for s in args['slices']:
             for k in (0, 1, 2) if level == 'basic' else (0, 1, 2, 3):
                 yield base + ['setslice', s, [e0, e1, e0][:k]]
+    if valdom is None and n:
+        yield base + ['set', 0, ['eq', 0]]
+        yield base + ['set', n - 1, ['eq', n - 1]]
     for i in args['ints']:
         yield base + ['pop', i]
         yield base + ['del', i]
@@ -354,6 +379,7 @@ def enum_model_ops(path: list, m: Any, level: str = 'basic', kinds: Optional[set
                 names = ['BlockComment']
             if cur is not None:
                 yield ['setnode', path, attr, None]
+                yield ['setnode', path, attr, ['eq']]
             for nm in names:
                 for var in range(min(2, len(DONORS[nm]))):
                     yield ['setnode', path, attr, ['m', nm, var]]
@@ -363,6 +389,8 @@ def enum_model_ops(path: list, m: Any, level: str = 'basic', kinds: Optional[set
             names = type_names(field_type(desc._inner_field))
             for nm in names:
                 yield ['setnode', path, attr, ['m', nm, 0]]
+            if names:
+                yield ['setnode', path, attr, ['eq']]
         elif isinstance(desc, PR.unordered_node_property):
             if not want('setnode'):
                 continue
@@ -419,7 +447,7 @@ def enum_model_ops(path: list, m: Any, level: str = 'basic', kinds: Optional[set
             if not want('setval'):
                 continue
             nm = desc._inner_type.__name__
-            cur = getattr(m, attr)
+            cur = cur_value(m, attr)
             if cur is not None:
                 yield ['setval', path, attr, None]
             for v in STR_DOMAIN.get(nm, ['z'])[:2]:
@@ -428,7 +456,7 @@ def enum_model_ops(path: list, m: Any, level: str = 'basic', kinds: Optional[set
         elif isinstance(desc, VP.optional_decimal_property):
             if not want('setval'):
                 continue
-            cur = getattr(m, attr)
+            cur = cur_value(m, attr)
             if cur is not None:
                 yield ['setval', path, attr, None]
             for v in (D(7), D('-1.5')):
@@ -437,14 +465,14 @@ def enum_model_ops(path: list, m: Any, level: str = 'basic', kinds: Optional[set
         elif isinstance(desc, VP.optional_date_property):
             if not want('setval'):
                 continue
-            cur = getattr(m, attr)
+            cur = cur_value(m, attr)
             if cur is not None:
                 yield ['setval', path, attr, None]
             yield ['setval', path, attr, enc(datetime.date(2012, 12, 12))]
         elif isinstance(desc, MV.optional_meta_value_property):
             if not want('setval'):
                 continue
-            cur = getattr(m, attr)
+            cur = cur_value(m, attr)
             if cur is not None:
                 yield ['setval', path, attr, None]
             for v in (['s', 'z'], ['n', '7'], ['b', True], ['d', '2012-12-12'], ['m', 'Account', 0],
@@ -459,7 +487,7 @@ def enum_model_ops(path: list, m: Any, level: str = 'basic', kinds: Optional[set
                     yield ['setval', path, attr, enc(v)]
             elif isinstance(inner, (M.NumberExpr, M.Tolerance)):
                 for v in (D(7), D('-1.5')):
-                    if v != inner.value:
+                    if v != cur_value(inner, 'value'):
                         yield ['setval', path, attr, enc(v)]
         elif isinstance(desc, property) and desc.fset is not None:
             if not want('setval'):
@@ -468,7 +496,7 @@ def enum_model_ops(path: list, m: Any, level: str = 'basic', kinds: Optional[set
                 yield ['setval', path, attr, ['b', not m.merge]]
             elif attr == 'value' and isinstance(m, (M.NumberExpr, M.Tolerance)):
                 for v in (D(7), D('-1.5')):
-                    if v != m.value:
+                    if v != cur_value(m, 'value'):
                         yield ['setval', path, attr, enc(v)]
             elif attr in ('spacing_before', 'spacing_after'):
                 if want('spacing') and path:
@@ -544,6 +572,12 @@ def apply(root: Any, op: list, *, catch: bool = True, extra: Optional[dict] = No
     ctx = comment_ctx(m) if not isinstance(m, M.RawTokenModel) else {}
     if extra:
         ctx.update(extra)
+
+    def _equal(e: list) -> Any:
+        if op[0] == 'seq':
+            return copy.deepcopy(getattr(m, op[2])[e[1]])
+        return copy.deepcopy(getattr(m, op[2]))
+    ctx['equal'] = _equal
 
     def mk(e: Any) -> Any:
         v = dec(e, ctx)
